@@ -14,31 +14,38 @@
 (***************************************************************************)
 EXTENDS Naturals, Sequences, FiniteSets, TLC
 
-CONSTANTS Paths, Contents, Canonical, MaxOps, PathRank   \* PathRank: Paths -> Nat, injective (the ordering of path strings)
+CONSTANTS Paths, Contents, Canonical, MaxOps, PathRank,  \* PathRank: Paths -> Nat, injective (the ordering of path strings)
+          ScriptPaths, ScriptContents                     \* scripts added on their own (a group may hold scripts only)
 
 VARIABLES tmpls,     \* main group: path -> content (function on a subset of Paths)
-          sub,       \* a second group being filled: [open, m]
+          scripts,   \* main group: script path -> content
+          sub,       \* a second group being filled: [open, m, s]
           nops
 
-gvars == <<tmpls, sub, nops>>
+gvars == <<tmpls, scripts, sub, nops>>
 
 Put(m, p, c) == [q \in DOMAIN m \cup {p} |-> IF q = p THEN c ELSE m[q]]
 Merge(m, n)  == [q \in DOMAIN m \cup DOMAIN n |-> IF q \in DOMAIN n THEN n[q] ELSE m[q]]
 Empty == [q \in {} |-> ""]
 
-NoSub == [open |-> FALSE, m |-> Empty]
-Init == tmpls = Empty /\ sub = NoSub /\ nops = 0
+NoSub == [open |-> FALSE, m |-> Empty, s |-> Empty]
+Init == tmpls = Empty /\ scripts = Empty /\ sub = NoSub /\ nops = 0
 
 AddTmpl(p, c) == /\ nops < MaxOps
                  /\ IF ~sub.open THEN tmpls' = Put(tmpls, p, c) /\ sub' = sub
                     ELSE sub' = [sub EXCEPT !.m = Put(sub.m, p, c)] /\ tmpls' = tmpls
-                 /\ nops' = nops + 1
+                 /\ nops' = nops + 1 /\ scripts' = scripts
+AddScript(p, c) == /\ nops < MaxOps
+                   /\ IF ~sub.open THEN scripts' = Put(scripts, p, c) /\ sub' = sub
+                      ELSE sub' = [sub EXCEPT !.s = Put(sub.s, p, c)] /\ scripts' = scripts
+                   /\ nops' = nops + 1 /\ tmpls' = tmpls
 RemoveTmpl(p) == /\ nops < MaxOps /\ ~sub.open /\ p \in DOMAIN tmpls
-                 /\ tmpls' = [q \in DOMAIN tmpls \ {p} |-> tmpls[q]] /\ nops' = nops + 1 /\ sub' = sub
-SubBegin      == /\ nops < MaxOps /\ ~sub.open /\ sub' = [open |-> TRUE, m |-> Empty] /\ nops' = nops + 1 /\ tmpls' = tmpls
-ImportGroup   == /\ sub.open /\ tmpls' = Merge(tmpls, sub.m) /\ sub' = NoSub /\ nops' = nops
+                 /\ tmpls' = [q \in DOMAIN tmpls \ {p} |-> tmpls[q]] /\ nops' = nops + 1 /\ sub' = sub /\ scripts' = scripts
+SubBegin      == /\ nops < MaxOps /\ ~sub.open /\ sub' = [open |-> TRUE, m |-> Empty, s |-> Empty] /\ nops' = nops + 1 /\ tmpls' = tmpls /\ scripts' = scripts
+ImportGroup   == /\ sub.open /\ tmpls' = Merge(tmpls, sub.m) /\ scripts' = Merge(scripts, sub.s) /\ sub' = NoSub /\ nops' = nops
 
 Next == \/ \E p \in Paths, c \in Contents : AddTmpl(p, c)
+        \/ \E p \in ScriptPaths, c \in ScriptContents : AddScript(p, c)
         \/ \E p \in Paths : RemoveTmpl(p)
         \/ SubBegin \/ ImportGroup
 Spec == Init /\ [][Next]_gvars
@@ -59,7 +66,7 @@ Artefact(m, order) ==
 RankDef == [p \in Paths |-> CASE p = "a" -> 1 [] p = "b" -> 2 [] p = "c" -> 3 [] OTHER -> 4]
 
 (* importing a group is adding its files: the main map after ImportGroup is the merge *)
-ImportIsAdd == [][sub.open /\ ~sub'.open => tmpls' = Merge(tmpls, sub.m)]_gvars
+ImportIsAdd == [][sub.open /\ ~sub'.open => tmpls' = Merge(tmpls, sub.m) /\ scripts' = Merge(scripts, sub.s)]_gvars
 
 (* C20 *)
 OrderIndependent == \A o1, o2 \in Perms(DOMAIN tmpls) : Artefact(tmpls, o1) = Artefact(tmpls, o2)
